@@ -536,12 +536,22 @@ Definition restrict_nucleotides (sp : spec) (max_edits_percent_set : bool) (s : 
                        (filter (fun i => (lstart l <=? i) && (i <? lend l)) ix)
       | None => [rchoice (lstart l) (lend l) [pyslice s (lstart l) (lend l)]]
       end
-  | SEnforceChanges l idx _ (Some _) _ true =>     (* minimum_percent == 100 *)
+  | SEnforceChanges l idx ref (Some _) _ true =>     (* minimum_percent == 100 *)
       let pos := match idx with
                  | Some ix => filter (fun i => (lstart l <=? i) && (i <? lend l)) ix
                  | None => zrange (lstart l) (lend l)
                  end in
-      map (fun i => rchoice i (i + 1) (match pyslice s i (i + 1) with [x] => other_bases_of x | _ => [] end)) pos
+      (* the nucleotide to avoid is the one of the reference: dict(zip(positions, reference)), the last
+         entry of a repeated position wins; positions the reference does not reach fall back on the sequence *)
+      let orig := rev (combine (match idx with
+                                | Some ix => ix
+                                | None => if lstrand l =? -1 then rev (zrange (lstart l) (lend l)) else zrange (lstart l) (lend l)
+                                end) ref) in
+      map (fun i => rchoice i (i + 1)
+                      (match find (fun p => fst p =? i) orig with
+                       | Some p => other_bases_of (snd p)
+                       | None => match pyslice s i (i + 1) with [x] => other_bases_of x | _ => [] end
+                       end)) pos
   | SEnforceSequence w l =>
       map (fun i =>
              if lstrand l =? -1
